@@ -64,14 +64,15 @@ static std::string make_numtok(int64_t seed) {
     }
 }
 static std::string make_deep(int64_t kind, int64_t dsel, int64_t closed) {
-    static const int depths[] = {998, 999, 1000, 1001, 1002, 1100, 5000, 100000};
-    int d = depths[(uint64_t)dsel % 8];
+    static const int depths[] = {998, 999, 1000, 1001, 1002, 1100, 5000, 100000, 100000, 100000};
+    int d = depths[(uint64_t)dsel % 10];
     std::string open, close, inner = "1";
+    int k = (int)((uint64_t)kind % 5);
     for (int i = 0; i < d; i++) {
-        int k = (int)((uint64_t)kind % 3);
         bool obj = k == 1 || (k == 2 && (i & 1));
-        open += obj ? "{\"a\":" : "[";
-        close += obj ? "}" : "]";
+        if (k == 3) { open += "[[],"; close += "]"; }               // an empty container before the child that continues the nesting
+        else if (k == 4) { open += "{\"e\":{},\"a\":"; close += "}"; }
+        else { open += obj ? "{\"a\":" : "["; close += obj ? "}" : "]"; }
     }
     std::reverse(close.begin(), close.end());
     if ((uint64_t)closed % 3 == 0) return open;           // unbalanced: only openers
@@ -141,12 +142,13 @@ static bool apply_fault(std::string &b, int kind, uint64_t x, uint64_t y, uint64
             if (v.empty()) {  // no escape present: plant one inside the first string
                 size_t q = b.find('"');
                 if (q == std::string::npos) return false;
-                static const char *e[] = {"\\x", "\\U0041", "\\u12", "\\u", "\\uZZZZ", "\\u12G4", "\\a", "\\'", "\\u 123", "\\u+123"};
-                b.insert(q + 1, e[y % 10]);
+                static const char *e[] = {"\\x", "\\U0041", "\\u12", "\\u", "\\uZZZZ", "\\u12G4", "\\a", "\\'", "\\u 123", "\\u+123", "\\u\\u\\u", "\\u\\u\\u\\u\\u\\u", "\\u0x41", "\\u-000", "\\u\\u"};
+                b.insert(q + 1 + (b.size() > q + 9 ? (x % 8) : 0), e[y % 15]);
                 return true;
             }
             size_t p = v[x % v.size()];
             if (p + 1 >= n) return false;
+            if ((y % 7) == 0) { b.insert(p, (y % 2) ? "\\u\\u\\u" : "\\u\\u\\u\\u"); return true; }
             if (b[p + 1] == 'u') {
                 switch (y % 4) {
                     case 0: b.erase(p + 2, std::min<size_t>(1 + (y / 4) % 4, n - p - 2)); break;   // fewer than four hex digits
@@ -193,9 +195,9 @@ static bool apply_fault(std::string &b, int kind, uint64_t x, uint64_t y, uint64
         case 17: { char c = (char)(1 + y % 0x20); b.insert(x % (n + 1), 1, c); return true; }
         case 18: b.insert(x % (n + 1), 1, '\0'); return true;
         default: {
-            static const char *tr[] = {" ", "\n\t ", "x", " x", "]", ",", "\0x", " \0", "\0", "1", "//c", "}", "\"", " \0 ", "\0\0"};
-            static const size_t trl[] = {1, 3, 1, 2, 1, 1, 2, 2, 1, 1, 3, 1, 1, 3, 2};
-            b.append(tr[y % 15], trl[y % 15]);
+            static const char *tr[] = {" ", "\n\t ", "x", " x", "]", ",", "\0x", " \0", "\0", "1", "//c", "}", "\"", " \0 ", "\0\0", "\xE9", "\xC2\xA0", " \xEF\xBB\xBF", "\x80", "\xFF "};
+            static const size_t trl[] = {1, 3, 1, 2, 1, 1, 2, 2, 1, 1, 3, 1, 1, 3, 2, 1, 2, 4, 1, 2};
+            b.append(tr[y % 20], trl[y % 20]);
             return true;
         }
     }
@@ -224,16 +226,18 @@ Plan gen_store_plan(const std::string &prop, uint64_t seed, int64_t run) {
         p.steps.push_back(mk("fault", {kind, R(r), R(r), R(r)}));
     };
     if (prop == "C01") {
-        // one stored document, 0-2 sampled faults, several reads; truncation at every byte is enumerated by sub-executions
-        if (r.chance(1, 40)) p.steps.push_back(mk("deep", {R(r), R(r), R(r)}));
+        // one stored document, sampled faults, several reads. In a third of the runs the short-write fault is enumerated at
+        // every byte by sub-executions; the other runs only sample faults (they are cheap, so many more of them fit the budget)
+        bool enumerate = r.chance(1, 3);
+        if (r.chance(1, 12)) p.steps.push_back(mk("deep", {R(r), R(r), R(r)}));
         else if (r.chance(1, 10)) p.steps.push_back(mk("numtok", {R(r)}));
         else if (r.chance(1, 6)) p.steps.push_back(mk(r.chance(1, 2) ? "soup" : "raw", {R(r)}));
         else p.steps.push_back(mk("doc", {R(r), R(r), (int64_t)(r.chance(1, 2) ? 5 : (r.chance(1, 2) ? 0 : 1))}));
-        int nf = (int)r.below(3);
-        for (int i = 0; i < nf; i++) add_fault(false);
+        int nf = enumerate ? (int)r.below(3) : (int)r.range(1, 3);
+        for (int i = 0; i < nf; i++) add_fault(!enumerate && r.chance(1, 2));
         int np = (int)r.range(1, 3);
         for (int i = 0; i < np; i++) p.steps.push_back(mk("parse", {R(r), R(r)}));
-        p.knobs["enumerate_trunc"] = 1;
+        if (enumerate) p.knobs["enumerate_trunc"] = 1;
     } else if (prop == "C03") {
         int groups = (int)r.range(1, 4);
         for (int g = 0; g < groups; g++) {
@@ -372,7 +376,14 @@ struct StoreRun {
             std::string lv = asim::take_violation();
             if (!lv.empty()) discard("ledger violation outside this property's oracles: " + lv);
             if (cls.verdict == V_OUTSIDE && asim::live_serials() != serials0) violation("rejection-leak", "rejecting the text left " + I((int64_t)asim::live_blocks() - (int64_t)live0) + " block(s) allocated:" + asim::describe_live(4) + ctx);
-            if (cls.verdict == V_OUTSIDE) { stats.nontrivial++; stats.state_hashes.push_back(mix64(hash_str(lastfault), hash_str(cls.why.substr(0, cls.why.find(" at offset"))))); }
+            if (cls.verdict == V_OUTSIDE) {
+                // distinct by (fault kind, rejection reason, byte classes around the position where the recogniser stops, entry point, terminated?)
+                size_t at = cls.why.find(" at offset ");
+                size_t off = at == std::string::npos ? 0 : (size_t)strtoull(cls.why.c_str() + at + 11, nullptr, 10);
+                int before = off > 0 && off <= buffer.size() ? (unsigned char)buffer[off - 1] : -1, after = off < buffer.size() ? (unsigned char)buffer[off] : -1;
+                stats.nontrivial++;
+                stats.state_hashes.push_back(mix64(mix64(hash_str(lastfault), hash_str(cls.why.substr(0, at))), (uint64_t)(byte_class(before) * 16 + byte_class(after)) * 16 + (uint64_t)entry * 2 + (req ? 1 : 0)));
+            }
             log.add("parse e" + I(entry) + " f" + I(flags) + " n" + I((int64_t)n) + " " + vn[cls.verdict] + " -> " + verdict);
             return;
         }
